@@ -480,10 +480,63 @@ func schedMain(args []string) int {
 		for _, prog := range catalogue(target) {
 			exhaustive(target, prog, bound, n, emit)
 		}
+	case "replay":
+		// harness sched <target> replay 0 0 0 "<program as printed in a trace comment>" "<schedule digits>": re-execute one schedule
+		if len(args) < 7 {
+			return 2
+		}
+		prog, err := parseProgram(args[5])
+		if err != nil {
+			fmt.Fprintln(os.Stderr, err)
+			return 2
+		}
+		sched := args[6]
+		var taken []string
+		choose := func(en []int, step int) int {
+			id := en[0]
+			if step < len(sched) {
+				if want := int(sched[step] - '0'); contains(en, want) {
+					id = want
+				}
+			}
+			taken = append(taken, strconv.Itoa(id))
+			return id
+		}
+		lines, _ := runOnce(target, prog, choose)
+		emit(fmt.Sprintf("prog %s :: schedule %s", prog, strings.Join(taken, "")), lines)
 	default:
 		return 2
 	}
 	return 0
+}
+
+// parseProgram reads the rendering produced by program.String(): "t0: store 1 5; load 1 | t1: load 1"
+func parseProgram(s string) (program, error) {
+	var p program
+	for _, part := range strings.Split(s, " | ") {
+		i := strings.Index(part, ":")
+		if i < 0 {
+			return nil, fmt.Errorf("bad program part %q", part)
+		}
+		var ops []schedOp
+		for _, o := range strings.Split(part[i+1:], ";") {
+			f := strings.Fields(o)
+			if len(f) == 0 {
+				continue
+			}
+			op := schedOp{name: f[0]}
+			for _, a := range f[1:] {
+				n, err := strconv.Atoi(a)
+				if err != nil {
+					return nil, err
+				}
+				op.args = append(op.args, n)
+			}
+			ops = append(ops, op)
+		}
+		p = append(p, ops)
+	}
+	return p, nil
 }
 
 var _ sync.Mutex
